@@ -80,6 +80,14 @@ static void reap(void)
 }
 static int cr_victim_gone(void) { reap(); return victim_pid <= 0 || victim_reaped; }
 static int cr_fserver_gone(void) { reap(); return fserver_pid <= 0 || fserver_reaped; }
+static void cr_fserver_idle_kill(void)
+{
+	CR_REAL(int, kill, pid_t, int);
+	if (fserver_pid > 0 && !fserver_reaped) {
+		real_kill(fserver_pid, SIGKILL);
+		while (!cr_fserver_gone()) cr_real_sleep_us(100);
+	}
+}
 static void cr_gate_fire(void)
 {
 	int st;
@@ -742,7 +750,10 @@ static void server_death_case(enum qb_ipc_type type, const char *pre, const char
 		sh->s_armed = 1;
 	}
 	cr_vclock_ms = 0;
+	cr_idle_killed = 0;
+	cr_idle_kill_armed = !dry;
 	h_call2(c, api, (dry && tmo < 0) ? DRY_PATIENCE_MS : tmo, tmo);
+	cr_idle_kill_armed = 0;
 	if (dry) {
 		cr_real_sleep_us(20000);
 		sh->s_armed = 0;
@@ -750,9 +761,9 @@ static void server_death_case(enum qb_ipc_type type, const char *pre, const char
 		real_kill(fserver_pid, SIGKILL);
 		while (!cr_fserver_gone()) cr_real_sleep_us(100);
 	} else {
-		printf("server s=%d call=%s dead=%d resp_sent=%d\n", s,
+		printf("server s=%d call=%s dead=%d resp_sent=%d%s\n", s,
 		       s > 0 && s <= sh->s_ncalls ? cr_call_name[sh->s_trace[s]] : (s == 0 ? "killed" : "end"),
-		       cr_fserver_gone(), sh->s_resp_sent);
+		       cr_fserver_gone(), sh->s_resp_sent, cr_idle_killed ? " idle-killed" : "");
 		if (!cr_fserver_gone()) {
 			/* the s-th call was never reached: the call under test completed; kill now */
 			real_kill(fserver_pid, SIGKILL);
